@@ -2,10 +2,17 @@
 //
 // Targets
 //   agg_double / agg_long   the aggregation classes directly: Aggregate into 1..6 chunks, Merge the
-//                           chunks in a generated binary-tree order, Diff, ToPoint, clone
+//                           chunks in a generated binary-tree order, Diff, ToPoint, clones made from
+//                           points (aggregated into, merged with recorded histograms, with each
+//                           other and with an empty clone)
 //   meter_cycles            end to end: MeterProvider -> Meter -> long/double histogram instruments
-//                           (default and view-configured boundaries) -> delta and cumulative
-//                           readers collecting over several cycles, several attribute sets
+//                           (default boundaries, one view, or TWO views with independently
+//                           generated boundary lists = two streams fed by every Record) -> delta and
+//                           cumulative readers collecting over several cycles, several attribute
+//                           sets, several handles of one instrument (created and replaced in the
+//                           middle of the history)
+//   meter_cycles_abi2       the same in the ABI v2 build, where Record(value) and
+//                           Record(value, attributes) (no context argument) are generated as well
 // Oracle: a linear-scan reference written from the statement (bucket i <=> b[i-1] < v <= b[i], the
 // last bucket everything above the top boundary); count = number of values = sum of the bucket
 // counts; min / max exact (when enabled and count > 0); sum exact when every value is a multiple
@@ -13,17 +20,19 @@
 // relative (floating addition is not associative; merged chunks add in another order); merge of
 // chunks == aggregation of the concatenation; a cumulative point == reference over everything
 // recorded so far; a delta point == reference over the interval and the sum of the delta points ==
-// reference over everything.  Diff(a, a+b) is asserted for what its header documents (bucket counts
-// and count of b); its sum is only observed (tag), the property text does not cover Diff.
+// reference over everything; every stream of an instrument is checked on its own against the
+// boundaries and min/max flag of its view.  Diff(a, a+b) is asserted for what its header documents
+// (bucket counts and count of b); its sum is only observed (tag), the property text does not cover
+// Diff.
 // Two-sided where the statement leaves room: a cumulative reader may or may not re-send an
 // unchanged series, a delta reader may omit or send an all-zero point for an empty interval, a
 // point may carry exact min/max although the view disabled them.
 //
 // Domain restrictions (documented preconditions, see driver/propdefs/c07.py assumptions):
 //   values are non-negative and finite (Histogram::Record: "MUST be non-negative");
-//   the sum of a series stays representable (<= INT64_MAX for long, finite for double);
-//   an int64 value above 2^53 that is not representable as a double is never placed so that its
-//   rounded-down double image is exactly a boundary (the bucket search compares in double).
+//   the sum of a series stays representable (<= INT64_MAX for long, finite for double).
+// Held-back defect candidates (generated only with the guards below off, counted otherwise):
+//   C07-int64-boundary-rounding, C07-u64-above-int64-max - see kHoldBack_* further down.
 #include <algorithm>
 #include <cfloat>
 #include <cmath>
@@ -41,7 +50,9 @@
 #include "opentelemetry/context/context.h"
 #include "opentelemetry/metrics/meter.h"
 #include "opentelemetry/metrics/sync_instruments.h"
+#include "opentelemetry/nostd/shared_ptr.h"
 #include "opentelemetry/nostd/variant.h"
+#include "opentelemetry/sdk/common/global_log_handler.h"
 #include "opentelemetry/sdk/metrics/aggregation/aggregation.h"
 #include "opentelemetry/sdk/metrics/aggregation/aggregation_config.h"
 #include "opentelemetry/sdk/metrics/aggregation/histogram_aggregation.h"
@@ -277,7 +288,7 @@ sdkm::HistogramPointData point_of(const sdkm::Aggregation &a)
 // one boundary candidate
 double gen_bnum(vh::Reader &rd)
 {
-  switch (rd.weighted({30, 14, 10, 10, 8, 8, 5, 5, 6, 4}))
+  switch (rd.weighted({30, 14, 10, 10, 8, 8, 5, 5, 6, 4, 3}))
   {
     case 0:
       return static_cast<double>(rd.below(21));
@@ -309,13 +320,17 @@ double gen_bnum(vh::Reader &rd)
     }
     case 8:
       return static_cast<double>(rd.below(65536)) * (rd.coin() ? 1.0 : 1000.0);
-    default:
+    case 9:
     {
       uint64_t bits = rd.u64() & 0x7fffffffffffffffULL;
       double d;
       std::memcpy(&d, &bits, sizeof d);
       return std::isfinite(d) ? d : DBL_MAX;
     }
+    default:
+      // -0.0 (numerically the boundary 0: "v <= -0.0" holds for v = 0.0 and v = -0.0) and an
+      // infinite top boundary (the bucket below it then holds everything above the one before)
+      return rd.coin() ? HUGE_VAL : -0.0;
   }
 }
 
@@ -328,7 +343,7 @@ struct Bounds
 Bounds gen_bounds(vh::Reader &rd)
 {
   Bounds r;
-  switch (rd.weighted({22, 10, 12, 20, 18, 18}))
+  switch (rd.weighted({22, 10, 12, 20, 18, 18, 8}))
   {
     case 0:
       r.b   = default_bounds();
@@ -360,12 +375,24 @@ Bounds gen_bounds(vh::Reader &rd)
       r.cls = "mixed-small";
       break;
     }
-    default:
+    case 5:
     {
       unsigned n = 9 + rd.below(16);
       for (unsigned i = 0; i < n; ++i)
         r.b.push_back(gen_bnum(rd));
       r.cls = "mixed-large";
+      break;
+    }
+    default:
+    {
+      // 26..200 boundaries from three choices
+      static const std::vector<double> steps = {1.0, 0.25, 10.0, 0.1, 1e299, 4503599627370496.0 /* 2^52 */};
+      unsigned n  = 26 + rd.below(175);
+      double x    = static_cast<double>(rd.below(6));
+      double step = rd.pick(steps);
+      for (unsigned i = 0; i < n; ++i)
+        r.b.push_back(x + i * step);
+      r.cls = "ladder-long";
       break;
     }
   }
@@ -379,7 +406,28 @@ struct Val
 {
   T v;
   const char *cls;
+  uint64_t above = 0;  // != 0: an unsigned value above INT64_MAX for Histogram<uint64_t>::Record (v stays 0)
 };
+
+// ---------------------------------------------------------------- findings in the quantifier's corners
+// Two regions of the quantifier ("very large values", "huge boundaries", "integer instruments") on
+// which the library did not give the statement's point.  C07-int64-boundary-rounding is FIXED in
+// /repo (4238e2f; regression replays replays/C07/C07-int64-boundary-rounding*.json) and its shape
+// is generated.  C07-u64-above-int64-max is an OPEN known finding (known_findings.json; fixed
+// witness target u64_wrap_witness): while it is listed as open the generator re-shapes the value
+// and counts how often it walked into it (vh::count_excluded).
+//   C07-int64-boundary-rounding: an int64 value above 2^53 that is not a double and whose double
+//     image rounds DOWN onto a boundary b (b < v): BucketBinarySearch<int64_t> compares in double
+//     and counts v in the bucket "<= b".  Re-shaped into b itself.
+//   C07-u64-above-int64-max: Histogram<uint64_t>::Record(v) with v > INT64_MAX: the value is
+//     converted to a negative int64 (bucket of the negative number, min < 0, sum decreases).
+//     HistogramPointData cannot hold such a value (int64 sum/min/max); the only outcome that
+//     leaves the point an exact summary is that the value is not recorded (as DoubleHistogram
+//     does with negative values) - that is what the oracle accepts.  Re-shaped into 0.
+const bool kHoldBack_int64_boundary_rounding = false;
+const bool kHoldBack_u64_above_int64_max     = false;
+const char kIdRounding[]                     = "C07-int64-boundary-rounding";
+const char kIdU64[]                          = "C07-u64-above-int64-max";
 
 // may `v` be added to a series whose (reference) sum is `total` so far?
 bool fits(long double total, double v)
@@ -391,12 +439,21 @@ bool fits(int64_t total, int64_t v)
   return v <= std::numeric_limits<int64_t>::max() - total;
 }
 
-// the non-negative boundaries (candidates for boundary-equal values)
+bool twice_fits(long double total)
+{
+  return total + total <= 1.7e308L;
+}
+bool twice_fits(int64_t total)
+{
+  return total <= std::numeric_limits<int64_t>::max() - total;
+}
+
+// the non-negative finite boundaries (candidates for boundary-equal values)
 std::vector<double> nonneg(const std::vector<double> &b)
 {
   std::vector<double> r;
   for (double x : b)
-    if (x >= 0)
+    if (x >= 0 && std::isfinite(x))
       r.push_back(x);
   return r;
 }
@@ -472,6 +529,8 @@ Val<double> gen_value(vh::Reader &rd, const std::vector<double> &bounds, long do
       }
       else if (!nn.empty() && nn.back() < 1e300)
         r = {nn.back() * 2 + 1, "above-top"};
+      if (!std::isfinite(r.v))  // a bucket that ends at an infinite boundary has no middle
+        r = {0.0, "zero"};
       break;
   }
   // keep every partial sum finite: all values are >= 0, so partial sums never exceed the total
@@ -481,14 +540,21 @@ Val<double> gen_value(vh::Reader &rd, const std::vector<double> &bounds, long do
   return r;
 }
 
-Val<int64_t> gen_value(vh::Reader &rd, const std::vector<double> &bounds, int64_t &total, int force = -1)
+// `allow_u64`: the caller records through Histogram<uint64_t> and can take a value above INT64_MAX
+Val<int64_t> gen_value(vh::Reader &rd,
+                       const std::vector<double> &bounds,
+                       int64_t &total,
+                       int force      = -1,
+                       bool allow_u64 = false)
 {
   std::vector<double> nn;
   for (double x : bounds)
     if (x >= 0 && x < kTwo63)
       nn.push_back(x);
   Val<int64_t> r{0, "zero"};
-  switch (force >= 0 ? static_cast<size_t>(force) : rd.weighted({14, 30, 16, 10, 10, 4}))
+  switch (force >= 0  ? static_cast<size_t>(force)
+          : allow_u64 ? rd.weighted({14, 30, 16, 10, 10, 4, 2})
+                      : rd.weighted({14, 30, 16, 10, 10, 4}))
   {
     case 0:
       break;
@@ -535,22 +601,57 @@ Val<int64_t> gen_value(vh::Reader &rd, const std::vector<double> &bounds, int64_
       r = {rd.pick(huge), "huge"};
       break;
     }
-    default:
+    case 5:
       r = {static_cast<int64_t>(rd.u64() >> 1), "random-bits"};
       break;
+    default:
+    {
+      // an unsigned value above INT64_MAX (only through Histogram<uint64_t>::Record)
+      static const std::vector<uint64_t> big = {uint64_t(1) << 63, ~uint64_t(0), (uint64_t(1) << 63) + 1,
+                                                uint64_t(3) << 62};
+      unsigned i   = rd.below(static_cast<uint32_t>(big.size() + 1));
+      uint64_t u   = i < big.size() ? big[i] : (rd.u64() | (uint64_t(1) << 63));
+      if (kHoldBack_u64_above_int64_max || vh::excluded(kIdU64))
+      {
+        vh::count_excluded(kIdU64);
+        return r;  // re-shaped into 0
+      }
+      r.cls   = "u64-above-int64-max";
+      r.above = u;
+      return r;  // nothing is added to the series: the value must not be recorded
+    }
   }
   // the int64 sum must stay representable
   if (!fits(total, r.v))
     r = {0, "zero"};
-  // the bucket search compares in double: an int64 that rounds DOWN onto a boundary would be
-  // counted one bucket low; that shape is outside the checked domain (see the header comment)
+  // C07-int64-boundary-rounding: an int64 that is not a double and rounds DOWN onto a boundary
   double d = static_cast<double>(r.v);
   if (d < kTwo63 && static_cast<int64_t>(d) < r.v && std::binary_search(bounds.begin(), bounds.end(), d))
   {
-    r = {static_cast<int64_t>(d), "eq-boundary"};
+    if (kHoldBack_int64_boundary_rounding || vh::excluded(kIdRounding))
+    {
+      vh::count_excluded(kIdRounding);
+      r = {static_cast<int64_t>(d), "eq-boundary"};  // smaller than before: still fits
+    }
+    else
+      r.cls = "rounds-down-onto-boundary";
   }
   total += r.v;
   return r;
+}
+
+// evidence only: the two special boundary values
+void tag_special_bounds(vh::Case &c, const std::vector<double> &b)
+{
+  for (double x : b)
+  {
+    if (x == 0 && std::signbit(x))
+      c.tag("bounds-with-negative-zero");
+    if (std::isinf(x))
+      c.tag("bounds-with-infinite-top");
+  }
+  if (b.size() >= 16)
+    c.tag("bounds-16+entries");
 }
 
 template <class T>
@@ -597,6 +698,7 @@ void run_agg(vh::Case &c)
   const sdkm::AggregationConfig *cfg_ptr = null_cfg ? nullptr : &cfg;
   const std::vector<double> &bounds       = bnd.b;
   c.tag(std::string("bounds-") + bnd.cls);
+  tag_special_bounds(c, bounds);
   c.tag(minmax ? "minmax-on" : "minmax-off");
 
   // values and their chunk
@@ -763,6 +865,34 @@ void run_agg(vh::Case &c)
     check_point<T>(c, "clone (copied point) after one more value", point_of(clone), bounds, more2, minmax);
     check_point<T>(c, "clone (moved point) after one more value", point_of(moved), bounds, more2, minmax);
     check_point<T>(c, "single histogram after cloning", point_of(whole), bounds, all, minmax);
+    // a clone combines with a recorded histogram like any other interval, in both directions
+    // (every value then counts twice: the doubled sum must stay representable)
+    if (twice_fits(total))
+    {
+      std::vector<T> uni = more2;
+      uni.insert(uni.end(), more.begin(), more.end());
+      std::unique_ptr<sdkm::Aggregation> m1 = clone.Merge(*aggs[0]);
+      std::unique_ptr<sdkm::Aggregation> m2 = aggs[0]->Merge(moved);
+      VH_CHECK(c, m1 != nullptr && m2 != nullptr, "Merge with a clone returned null");
+      check_point<T>(c, "clone (copied point) merged with the merge result", point_of(*m1), bounds, uni, minmax);
+      check_point<T>(c, "merge result merged with the clone (moved point)", point_of(*m2), bounds, uni, minmax);
+      std::vector<T> twice = more2;
+      twice.insert(twice.end(), more2.begin(), more2.end());
+      std::unique_ptr<sdkm::Aggregation> m5 = clone.Merge(moved);
+      VH_CHECK(c, m5 != nullptr, "Merge of two clones returned null");
+      check_point<T>(c, "clone (copied point) merged with the clone (moved point)", point_of(*m5), bounds, twice, minmax);
+      c.tag("clone-merged");
+    }
+    {
+      // and a clone of an EMPTY histogram is a neutral element
+      Agg fresh(cfg_ptr);
+      Agg empty_clone(point_of(fresh));
+      std::unique_ptr<sdkm::Aggregation> m3 = empty_clone.Merge(*aggs[0]);
+      std::unique_ptr<sdkm::Aggregation> m4 = aggs[0]->Merge(empty_clone);
+      VH_CHECK(c, m3 != nullptr && m4 != nullptr, "Merge with an empty clone returned null");
+      check_point<T>(c, "empty clone merged with the merge result", point_of(*m3), bounds, more, minmax);
+      check_point<T>(c, "merge result merged with an empty clone", point_of(*m4), bounds, more, minmax);
+    }
   }
 }
 
@@ -798,15 +928,25 @@ private:
   sdkm::AggregationTemporality t_;
 };
 
+// the SDK warns about every value it does not record; nothing here reads the log
+void quiet_logs()
+{
+  namespace il = opentelemetry::sdk::common::internal_log;
+  static nostd::shared_ptr<il::LogHandler> h(new il::NoopLogHandler);
+  il::GlobalLogHandler::SetLogHandler(h);
+  il::GlobalLogHandler::SetLogLevel(il::LogLevel::None);
+}
+
 // what was recorded for one (instrument, attribute set)
 template <class T>
 struct Series
 {
   std::vector<T> all;
   typename Ref<T>::Sum total = 0;
+  unsigned above_int64 = 0;  // Record calls with an unsigned value above INT64_MAX (not part of `all`)
 };
 
-// what one reader has seen of one (instrument, attribute set)
+// what one reader has seen of one (stream, attribute set)
 template <class T>
 struct Seen
 {
@@ -822,18 +962,30 @@ struct Seen
   sdkm::HistogramPointData last;
 };
 
+// one metric stream of an instrument: the default stream (no view) or one per matching view
+struct Stream
+{
+  std::string out_name;
+  std::vector<double> bounds;
+  bool minmax = true;
+};
+
 struct Inst
 {
   bool is_double = true;
-  int cfg_kind   = 0;  // 0 default (no view), 1 view kHistogram + config, 2 view kDefault + config
-  bool view_named = false;
-  bool minmax     = true;
-  std::vector<double> bounds;
-  std::string name, out_name;
-  nostd::unique_ptr<apim::Histogram<double>> hd;
-  nostd::unique_ptr<apim::Histogram<uint64_t>> hl;
+  // 0 default (no view), 1 view kHistogram + config, 2 view kDefault + config,
+  // 3 two views with independently generated boundary lists (two streams fed by every Record)
+  int cfg_kind = 0;
+  std::vector<Stream> streams;
+  std::vector<double> vbounds;  // the boundaries of all streams (sorted union): value generation
+  std::string name;
+  // every handle of the instrument (same name, description, unit): all record into the same streams
+  std::vector<nostd::unique_ptr<apim::Histogram<double>>> hd;
+  std::vector<nostd::unique_ptr<apim::Histogram<uint64_t>>> hl;
+  unsigned handles_made = 0;
   std::map<std::string, Series<double>> sd;
   std::map<std::string, Series<int64_t>> sl;
+  size_t handles() const { return is_double ? hd.size() : hl.size(); }
 };
 
 struct AttrSet
@@ -865,14 +1017,24 @@ std::string attr_key(const sdkm::PointAttributes &attrs)
   return s;
 }
 
-template <class T, class H>
-void record(H &h, T value, int attr_kind)
+// V: double or uint64_t (the value type of the API instrument).  `no_ctx`: the ABI v2 overloads
+// without a context argument (only compiled into the abi2 binary).
+template <class V, class H>
+void record(H &h, V v, int attr_kind, bool no_ctx)
 {
   opentelemetry::context::Context ctx{};
-  using V = typename std::conditional<std::is_same<T, double>::value, double, uint64_t>::type;
-  V v     = static_cast<V>(value);
+#if OPENTELEMETRY_ABI_VERSION_NO < 2
+  (void)no_ctx;
+#endif
   if (attr_kind == 0)
   {
+#if OPENTELEMETRY_ABI_VERSION_NO >= 2
+    if (no_ctx)
+    {
+      h->Record(v);
+      return;
+    }
+#endif
     h->Record(v, ctx);
     return;
   }
@@ -886,7 +1048,12 @@ void record(H &h, T value, int attr_kind)
                     common::AttributeValue(nostd::string_view(abuf.data() + 2, 1)));
   if (attr_kind == 4)
     kv.emplace_back(nostd::string_view(kbuf.data() + 2, 1), common::AttributeValue(int64_t(1)));
-  h->Record(v, common::KeyValueIterableView<decltype(kv)>(kv), ctx);
+#if OPENTELEMETRY_ABI_VERSION_NO >= 2
+  if (no_ctx)
+    h->Record(v, common::KeyValueIterableView<decltype(kv)>(kv));
+  else
+#endif
+    h->Record(v, common::KeyValueIterableView<decltype(kv)>(kv), ctx);
   std::fill(kbuf.begin(), kbuf.end(), '\xdd');
   std::fill(abuf.begin(), abuf.end(), '\xdd');
 }
@@ -896,7 +1063,7 @@ template <class T>
 void check_reported(vh::Case &c,
                     const std::string &what,
                     bool delta,
-                    const Inst &inst,
+                    const Stream &st,
                     const Series<T> &series,
                     Seen<T> &seen,
                     const sdkm::HistogramPointData &p)
@@ -905,7 +1072,7 @@ void check_reported(vh::Case &c,
   {
     if (seen.pending.empty())
       c.tag("delta-point-for-empty-interval");
-    check_point<T>(c, what + " (delta: the values of this interval)", p, inst.bounds, seen.pending, inst.minmax);
+    check_point<T>(c, what + " (delta: the values of this interval)", p, st.bounds, seen.pending, st.minmax);
     if (seen.acc_counts.empty())
       seen.acc_counts.assign(p.counts_.size(), 0);
     for (size_t i = 0; i < p.counts_.size(); ++i)
@@ -929,7 +1096,7 @@ void check_reported(vh::Case &c,
   }
   else
   {
-    check_point<T>(c, what + " (cumulative: everything recorded so far)", p, inst.bounds, series.all, inst.minmax);
+    check_point<T>(c, what + " (cumulative: everything recorded so far)", p, st.bounds, series.all, st.minmax);
     if (seen.pending.empty())
       c.tag("cumulative-resend-without-new-data");
     seen.have_last = true;
@@ -942,7 +1109,7 @@ template <class T>
 void check_final(vh::Case &c,
                  const std::string &what,
                  bool delta,
-                 const Inst &inst,
+                 const Stream &st,
                  const Series<T> &series,
                  const Seen<T> &seen)
 {
@@ -952,73 +1119,126 @@ void check_final(vh::Case &c,
   {
     VH_CHECK(c, seen.have_last, what << ": the cumulative reader never got a point for " << series.all.size()
                                      << " recorded values");
-    check_point<T>(c, what + " (last cumulative point against all values)", seen.last, inst.bounds, series.all,
-                   inst.minmax);
+    check_point<T>(c, what + " (last cumulative point against all values)", seen.last, st.bounds, series.all,
+                   st.minmax);
     return;
   }
   // the sum of the delta points is the histogram of everything
   sdkm::HistogramPointData sum;
-  sum.boundaries_     = inst.bounds;
-  sum.counts_         = seen.acc_counts.empty() ? std::vector<uint64_t>(inst.bounds.size() + 1, 0) : seen.acc_counts;
+  sum.boundaries_     = st.bounds;
+  sum.counts_         = seen.acc_counts.empty() ? std::vector<uint64_t>(st.bounds.size() + 1, 0) : seen.acc_counts;
   sum.count_          = seen.acc_count;
   sum.sum_            = static_cast<T>(seen.acc_sum);
   sum.record_min_max_ = seen.acc_any && seen.acc_minmax;
   sum.min_            = seen.acc_min;
   sum.max_            = seen.acc_max;
-  check_point<T>(c, what + " (sum of the delta points against all values)", sum, inst.bounds, series.all, inst.minmax);
+  check_point<T>(c, what + " (sum of the delta points against all values)", sum, st.bounds, series.all, st.minmax);
 }
-}  // namespace
 
-VH_TARGET(meter_cycles, 5,
-          "a history is non-trivial when some recorded value is 0 or exactly a boundary, or some "
-          "reader combines >= 2 collection intervals of one series (a cumulative reader collecting "
-          "twice with data in between, or any reader behind another reader's Collect); distinct = "
-          "distinct (instruments, readers, operation sequence) text")
+template <class T>
+using SeenMaps = std::vector<std::vector<std::vector<std::map<std::string, Seen<T>>>>>;  // [reader][inst][stream]{attrs}
+
+// `abi2`: the target of the ABI v2 binary - Record may also use the overloads without a context
+void run_meter_cycles(vh::Case &c, bool abi2)
 {
   vh::Reader &rd = c.rd;
+  quiet_logs();
   sdkm::MeterProvider mp;
 
   // ---- configuration
   unsigned n_inst = 1 + static_cast<unsigned>(rd.weighted({5, 3, 2}));
   std::vector<Inst> insts(n_inst);
   std::string cfgtxt;
+  auto add_view = [&](const Inst &in, const std::string &view_name, bool histogram_type, const Stream &st) {
+    std::shared_ptr<sdkm::HistogramAggregationConfig> cfg(new sdkm::HistogramAggregationConfig());
+    cfg->boundaries_     = st.bounds;
+    cfg->record_min_max_ = st.minmax;
+    std::unique_ptr<sdkm::View> view{
+        new sdkm::View(view_name, "", "ms",
+                       histogram_type ? sdkm::AggregationType::kHistogram : sdkm::AggregationType::kDefault, cfg)};
+    std::unique_ptr<sdkm::InstrumentSelector> is{
+        new sdkm::InstrumentSelector(sdkm::InstrumentType::kHistogram, in.name, "ms")};
+    std::unique_ptr<sdkm::MeterSelector> ms{new sdkm::MeterSelector("meter1", "version1", "schema1")};
+    mp.AddView(std::move(is), std::move(ms), std::move(view));
+  };
   for (unsigned i = 0; i < n_inst; ++i)
   {
     Inst &in     = insts[i];
     in.is_double = !rd.coin();
-    in.cfg_kind  = static_cast<int>(rd.weighted({4, 4, 2}));
+    in.cfg_kind  = static_cast<int>(rd.weighted({4, 4, 2, 4}));
     in.name      = "h" + std::to_string(i);
-    in.out_name  = in.name;
-    in.bounds    = default_bounds();
-    const char *bcls = "default-no-view";
-    if (in.cfg_kind != 0)
-    {
-      Bounds b      = gen_bounds(rd);
-      in.bounds     = b.b;
-      bcls          = b.cls;
-      in.minmax     = !rd.chance(25);
-      in.view_named = rd.chance(30);
-      if (in.view_named)
-        in.out_name = "v" + std::to_string(i);
-      std::shared_ptr<sdkm::HistogramAggregationConfig> cfg(new sdkm::HistogramAggregationConfig());
-      cfg->boundaries_     = in.bounds;
-      cfg->record_min_max_ = in.minmax;
-      std::unique_ptr<sdkm::View> view{
-          new sdkm::View(in.view_named ? in.out_name : std::string(), "", "ms",
-                         in.cfg_kind == 1 ? sdkm::AggregationType::kHistogram : sdkm::AggregationType::kDefault, cfg)};
-      std::unique_ptr<sdkm::InstrumentSelector> is{
-          new sdkm::InstrumentSelector(sdkm::InstrumentType::kHistogram, in.name, "ms")};
-      std::unique_ptr<sdkm::MeterSelector> ms{new sdkm::MeterSelector("meter1", "version1", "schema1")};
-      mp.AddView(std::move(is), std::move(ms), std::move(view));
-    }
     c.tag(std::string("inst-") + (in.is_double ? "double" : "long"));
-    c.tag(std::string("inst-bounds-") + bcls);
-    c.tag(in.cfg_kind == 0 ? "inst-no-view" : in.cfg_kind == 1 ? "inst-view-histogram" : "inst-view-default-agg");
-    if (!in.minmax)
-      c.tag("inst-minmax-off");
-    cfgtxt += in.name + ":" + (in.is_double ? "double" : "long") + " cfg=" + std::to_string(in.cfg_kind) +
-              (in.view_named ? " as " + in.out_name : "") + " minmax=" + (in.minmax ? "1" : "0") +
-              " bounds=" + fmt_list(in.bounds) + "\n";
+    cfgtxt += in.name + ":" + (in.is_double ? "double" : "long") + " cfg=" + std::to_string(in.cfg_kind);
+    if (in.cfg_kind == 0)
+    {
+      Stream st;
+      st.out_name = in.name;
+      st.bounds   = default_bounds();
+      in.streams.push_back(st);
+      c.tag("inst-bounds-default-no-view");
+      c.tag("inst-no-view");
+    }
+    else if (in.cfg_kind != 3)
+    {
+      Stream st;
+      Bounds b        = gen_bounds(rd);
+      st.bounds       = b.b;
+      st.minmax       = !rd.chance(25);
+      bool view_named = rd.chance(30);
+      st.out_name     = view_named ? "v" + std::to_string(i) : in.name;
+      add_view(in, view_named ? st.out_name : std::string(), in.cfg_kind == 1, st);
+      in.streams.push_back(st);
+      c.tag(std::string("inst-bounds-") + b.cls);
+      c.tag(in.cfg_kind == 1 ? "inst-view-histogram" : "inst-view-default-agg");
+    }
+    else
+    {
+      // two views on one instrument: two streams with their own boundary list and min/max flag;
+      // the second view is always named, the first keeps the instrument name or gets a name
+      Stream a, b;
+      Bounds ba    = gen_bounds(rd);
+      a.bounds     = ba.b;
+      a.minmax     = !rd.chance(25);
+      bool a_named = rd.coin();
+      a.out_name   = a_named ? "v" + std::to_string(i) + "a" : in.name;
+      bool a_hist  = !rd.coin();
+      const char *bcls = ba.cls;
+      if (rd.chance(12))
+        b.bounds = a.bounds;
+      else
+      {
+        Bounds bb = gen_bounds(rd);
+        b.bounds  = bb.b;
+        bcls      = bb.cls;
+      }
+      b.minmax    = !rd.chance(25);
+      b.out_name  = "v" + std::to_string(i) + "b";
+      bool b_hist = !rd.coin();
+      add_view(in, a_named ? a.out_name : std::string(), a_hist, a);
+      add_view(in, b.out_name, b_hist, b);
+      c.tag(std::string("inst-bounds-") + ba.cls);
+      c.tag(std::string("inst-bounds-") + bcls);
+      c.tag("inst-two-views");
+      c.tag(a.bounds == b.bounds ? "two-views-same-bounds" : "two-views-different-bounds");
+      if (a.bounds.size() != b.bounds.size())
+        c.tag("two-views-different-bucket-count");
+      if (a.minmax != b.minmax)
+        c.tag("two-views-minmax-differ");
+      in.streams.push_back(a);
+      in.streams.push_back(b);
+    }
+    for (const Stream &st : in.streams)
+    {
+      if (!st.minmax)
+        c.tag("inst-minmax-off");
+      tag_special_bounds(c, st.bounds);
+      in.vbounds.insert(in.vbounds.end(), st.bounds.begin(), st.bounds.end());
+      cfgtxt += std::string(" | ") + (st.out_name != in.name ? "as " + st.out_name + " " : "") +
+                "minmax=" + (st.minmax ? "1" : "0") + " bounds=" + fmt_list(st.bounds);
+    }
+    cfgtxt += "\n";
+    std::sort(in.vbounds.begin(), in.vbounds.end());
+    in.vbounds.erase(std::unique(in.vbounds.begin(), in.vbounds.end()), in.vbounds.end());
   }
   unsigned n_readers = 1 + static_cast<unsigned>(rd.weighted({4, 4, 2}));
   std::vector<std::shared_ptr<CycleReader>> readers;
@@ -1033,6 +1253,7 @@ VH_TARGET(meter_cycles, 5,
     cfgtxt += std::string("reader") + std::to_string(r) + "=" + (d ? "delta" : "cumulative") + "\n";
   }
   c.tag("readers-" + std::to_string(n_readers));
+  bool merge_path = n_readers >= 2 || !is_delta[0];  // every reported point went through Merge
   if (n_readers == 1)
     c.tag(is_delta[0] ? "single-delta-reader" : "single-cumulative-reader");
   else
@@ -1041,22 +1262,52 @@ VH_TARGET(meter_cycles, 5,
     bool any_c = std::find(is_delta.begin(), is_delta.end(), false) != is_delta.end();
     c.tag(any_d && any_c ? "readers-mixed" : any_d ? "readers-all-delta" : "readers-all-cumulative");
   }
+  for (const Inst &in : insts)
+    if (in.cfg_kind == 3 && merge_path && in.streams[0].bounds != in.streams[1].bounds)
+      c.tag("two-views-different-bounds-on-the-merge-path");
   c.note(cfgtxt);
 
-  auto meter = mp.GetMeter("meter1", "version1", "schema1");
-  for (Inst &in : insts)
-  {
+  auto meter      = mp.GetMeter("meter1", "version1", "schema1");
+  auto new_handle = [&](Inst &in, bool replace_last) {
     if (in.is_double)
-      in.hd = meter->CreateDoubleHistogram(in.name, "", "ms");
+    {
+      auto h = meter->CreateDoubleHistogram(in.name, "", "ms");
+      if (replace_last && !in.hd.empty())
+        in.hd.back() = std::move(h);  // the old handle is destroyed; what it recorded stays recorded
+      else
+        in.hd.push_back(std::move(h));
+    }
     else
-      in.hl = meter->CreateUInt64Histogram(in.name, "", "ms");
+    {
+      auto h = meter->CreateUInt64Histogram(in.name, "", "ms");
+      if (replace_last && !in.hl.empty())
+        in.hl.back() = std::move(h);
+      else
+        in.hl.push_back(std::move(h));
+    }
+    in.handles_made++;
+  };
+  std::map<std::string, std::pair<size_t, size_t>> by_name;  // reported metric name -> (instrument, stream)
+  for (size_t i = 0; i < insts.size(); ++i)
+  {
+    new_handle(insts[i], false);
+    for (size_t s = 0; s < insts[i].streams.size(); ++s)
+      by_name[insts[i].streams[s].out_name] = std::make_pair(i, s);
   }
 
-  // per reader x instrument x attribute set
-  std::vector<std::vector<std::map<std::string, Seen<double>>>> seen_d(
-      n_readers, std::vector<std::map<std::string, Seen<double>>>(n_inst));
-  std::vector<std::vector<std::map<std::string, Seen<int64_t>>>> seen_l(
-      n_readers, std::vector<std::map<std::string, Seen<int64_t>>>(n_inst));
+  // per reader x instrument x stream x attribute set
+  SeenMaps<double> seen_d(n_readers);
+  SeenMaps<int64_t> seen_l(n_readers);
+  for (unsigned r = 0; r < n_readers; ++r)
+  {
+    seen_d[r].resize(n_inst);
+    seen_l[r].resize(n_inst);
+    for (unsigned i = 0; i < n_inst; ++i)
+    {
+      seen_d[r][i].resize(insts[i].streams.size());
+      seen_l[r][i].resize(insts[i].streams.size());
+    }
+  }
   std::vector<unsigned> collects(n_readers, 0);
   bool combined = false;
 
@@ -1071,12 +1322,11 @@ VH_TARGET(meter_cycles, 5,
           for (const sdkm::MetricData &md : smd.metric_data_)
           {
             const std::string &nm = md.instrument_descriptor.name_;
-            size_t idx            = insts.size();
-            for (size_t i = 0; i < insts.size(); ++i)
-              if (insts[i].out_name == nm)
-                idx = i;
-            VH_CHECK(c, idx < insts.size(), label << ": metric '" << vh::show(nm) << "' was never created");
-            Inst &in = insts[idx];
+            auto where            = by_name.find(nm);
+            VH_CHECK(c, where != by_name.end(), label << ": metric '" << vh::show(nm) << "' was never configured");
+            size_t idx = where->second.first, sx = where->second.second;
+            Inst &in         = insts[idx];
+            const Stream &st = in.streams[sx];
             VH_CHECK(c, ++seen_metric[nm] == 1, label << ": metric " << nm << " reported twice in one collection");
             VH_CHECK(c,
                      md.aggregation_temporality == (is_delta[r] ? sdkm::AggregationTemporality::kDelta
@@ -1094,12 +1344,15 @@ VH_TARGET(meter_cycles, 5,
               if (in.is_double)
               {
                 VH_CHECK(c, in.sd.count(key), what << ": a point for an attribute set that was never recorded");
-                check_reported<double>(c, what, is_delta[r], in, in.sd[key], seen_d[r][idx][key], p);
+                check_reported<double>(c, what, is_delta[r], st, in.sd[key], seen_d[r][idx][sx][key], p);
               }
               else
               {
                 VH_CHECK(c, in.sl.count(key), what << ": a point for an attribute set that was never recorded");
-                check_reported<int64_t>(c, what, is_delta[r], in, in.sl[key], seen_l[r][idx][key], p);
+                if (in.sl[key].above_int64)
+                  what += " [" + std::to_string(in.sl[key].above_int64) +
+                          " Record calls with a value above INT64_MAX, which must not be recorded as another value]";
+                check_reported<int64_t>(c, what, is_delta[r], st, in.sl[key], seen_l[r][idx][sx][key], p);
               }
             }
             // a series with values recorded since this reader's last Collect must be reported now
@@ -1110,9 +1363,9 @@ VH_TARGET(meter_cycles, 5,
                                << " values were recorded since the reader's last Collect but no point is reported");
             };
             if (in.is_double)
-              missing(seen_d[r][idx]);
+              missing(seen_d[r][idx][sx]);
             else
-              missing(seen_l[r][idx]);
+              missing(seen_l[r][idx][sx]);
           }
       }
       catch (const vh::Fail &f)
@@ -1129,22 +1382,24 @@ VH_TARGET(meter_cycles, 5,
     });
     if (!failure.empty())
       c.fail(failure);
-    // instruments with pending values whose metric did not show up at all
+    // streams with pending values whose metric did not show up at all
     for (size_t i = 0; i < insts.size(); ++i)
-    {
-      bool pend = false;
-      for (auto &kv : seen_d[r][i])
-        pend = pend || !kv.second.pending.empty();
-      for (auto &kv : seen_l[r][i])
-        pend = pend || !kv.second.pending.empty();
-      VH_CHECK(c, !pend || seen_metric.count(insts[i].out_name),
-               label << ": values were recorded into " << insts[i].name
-                     << " since the reader's last Collect but the metric is not reported");
-      for (auto &kv : seen_d[r][i])
-        kv.second.pending.clear();
-      for (auto &kv : seen_l[r][i])
-        kv.second.pending.clear();
-    }
+      for (size_t s = 0; s < insts[i].streams.size(); ++s)
+      {
+        bool pend = false;
+        for (auto &kv : seen_d[r][i][s])
+          pend = pend || !kv.second.pending.empty();
+        for (auto &kv : seen_l[r][i][s])
+          pend = pend || !kv.second.pending.empty();
+        VH_CHECK(c, !pend || seen_metric.count(insts[i].streams[s].out_name),
+                 label << ": values were recorded into " << insts[i].name
+                       << " since the reader's last Collect but the metric " << insts[i].streams[s].out_name
+                       << " is not reported");
+        for (auto &kv : seen_d[r][i][s])
+          kv.second.pending.clear();
+        for (auto &kv : seen_l[r][i][s])
+          kv.second.pending.clear();
+      }
     collects[r]++;
   };
 
@@ -1181,17 +1436,29 @@ VH_TARGET(meter_cycles, 5,
   };
   for (unsigned op = 0; op < n_ops && (op == 0 || !rd.exhausted()); ++op)
   {
-    if (rd.weighted({80, 20}) == 0)
+    size_t kind = rd.weighted({80, 20, 4});
+    if (kind == 0)
     {
       unsigned ii       = rd.below(n_inst);
       Inst &in          = insts[ii];
       const AttrSet &as = kAttrSets[rd.weighted({4, 2, 2, 1, 1})];
       unsigned repeat   = rd.chance(8) ? 2 + rd.below(30) : 1;
       std::string key   = as.model_key;
+      std::string vtxt;
+      const char *vcls = "";
+      bool zero = false, eq = false;
+      // drawn after the value: which handle, which overload
+      size_t hx   = 0;
+      bool no_ctx = false;
+      auto late_draws = [&]() {
+        hx     = in.handles() > 1 ? rd.below(static_cast<uint32_t>(in.handles())) : 0;
+        no_ctx = abi2 && rd.coin();
+      };
       if (in.is_double)
       {
         Series<double> &s = in.sd[key];
-        Val<double> v     = gen_value(rd, in.bounds, s.total);
+        Val<double> v     = gen_value(rd, in.vbounds, s.total);
+        late_draws();
         for (unsigned k = 0; k < repeat; ++k)
         {
           if (k > 0)
@@ -1200,45 +1467,71 @@ VH_TARGET(meter_cycles, 5,
               break;
             s.total += v.v;
           }
-          record<double>(in.hd, v.v, as.kind);
+          record<double>(in.hd[hx], v.v, as.kind, no_ctx);
           s.all.push_back(v.v);
           for (unsigned r = 0; r < n_readers; ++r)
-            seen_d[r][ii][key].pending.push_back(v.v);
+            for (size_t sx = 0; sx < in.streams.size(); ++sx)
+              seen_d[r][ii][sx][key].pending.push_back(v.v);
         }
-        any_zero = any_zero || v.v == 0;
-        any_eq   = any_eq || on_boundary(v.v, in.bounds);
-        c.tag(std::string("val-") + v.cls);
-        c.note("rec " + in.name + "{" + key + "}/" + std::to_string(as.kind) + " " + fmt(v.v) +
-               (repeat > 1 ? "x" + std::to_string(repeat) : "") + "\n");
+        zero = v.v == 0;
+        eq   = on_boundary(v.v, in.vbounds);
+        vcls = v.cls;
+        vtxt = fmt(v.v);
       }
       else
       {
         Series<int64_t> &s = in.sl[key];
-        Val<int64_t> v     = gen_value(rd, in.bounds, s.total);
-        for (unsigned k = 0; k < repeat; ++k)
+        Val<int64_t> v     = gen_value(rd, in.vbounds, s.total, -1, /*allow_u64=*/true);
+        late_draws();
+        if (v.above != 0)
         {
-          if (k > 0)
-          {
-            if (!fits(s.total, v.v))
-              break;
-            s.total += v.v;
-          }
-          record<int64_t>(in.hl, v.v, as.kind);
-          s.all.push_back(v.v);
+          // C07-u64-above-int64-max: must not be recorded as another value; the model records nothing
+          for (unsigned k = 0; k < repeat; ++k)
+            record<uint64_t>(in.hl[hx], v.above, as.kind, no_ctx);
+          s.above_int64 += repeat;
+          vtxt = "u64:" + std::to_string(v.above) + " (above INT64_MAX: not representable in the point, must not be recorded)";
           for (unsigned r = 0; r < n_readers; ++r)
-            seen_l[r][ii][key].pending.push_back(v.v);
+            for (size_t sx = 0; sx < in.streams.size(); ++sx)
+              (void)seen_l[r][ii][sx][key];  // a point for this attribute set is checked against what the model holds
         }
-        any_zero = any_zero || v.v == 0;
-        any_eq   = any_eq || on_boundary(v.v, in.bounds);
-        c.tag(std::string("val-") + v.cls);
-        c.note("rec " + in.name + "{" + key + "}/" + std::to_string(as.kind) + " " + fmt(v.v) +
-               (repeat > 1 ? "x" + std::to_string(repeat) : "") + "\n");
+        else
+        {
+          for (unsigned k = 0; k < repeat; ++k)
+          {
+            if (k > 0)
+            {
+              if (!fits(s.total, v.v))
+                break;
+              s.total += v.v;
+            }
+            record<uint64_t>(in.hl[hx], static_cast<uint64_t>(v.v), as.kind, no_ctx);
+            s.all.push_back(v.v);
+            for (unsigned r = 0; r < n_readers; ++r)
+              for (size_t sx = 0; sx < in.streams.size(); ++sx)
+                seen_l[r][ii][sx][key].pending.push_back(v.v);
+          }
+          zero = v.v == 0;
+          eq   = on_boundary(v.v, in.vbounds);
+          vtxt = fmt(v.v);
+        }
+        vcls = v.cls;
       }
+      any_zero = any_zero || zero;
+      any_eq   = any_eq || eq;
+      c.tag(std::string("val-") + vcls);
+      c.note("rec " + in.name + (hx ? "#" + std::to_string(hx) : std::string()) + "{" + key + "}/" +
+             std::to_string(as.kind) + (no_ctx ? "n " : " ") + vtxt + (repeat > 1 ? "x" + std::to_string(repeat) : "") +
+             "\n");
       c.tag(std::string("attrs-") + (as.kind == 0 ? "none" : as.kind == 1 ? "empty-iterable" : "pairs"));
-      live[std::to_string(ii) + "/" + key] = true;
+      if (hx > 0)
+        c.tag("record-through-further-handle");
+      if (no_ctx)
+        c.tag("record-without-context(abi2)");
+      if (vtxt.compare(0, 4, "u64:") != 0)
+        live[std::to_string(ii) + "/" + key] = true;
       n_records++;
     }
-    else
+    else if (kind == 1)
     {
       unsigned r = rd.below(n_readers);
       note_collect(r);
@@ -1246,6 +1539,19 @@ VH_TARGET(meter_cycles, 5,
       do_collect(r, "collect#" + std::to_string(collects[r]) + " of reader" + std::to_string(r) +
                         (is_delta[r] ? "(delta)" : "(cumulative)"));
       n_collects++;
+    }
+    else
+    {
+      // a further handle for an instrument that exists (same name, description and unit): it
+      // records into the same streams; with `replace` the newest handle is destroyed first
+      unsigned ii  = rd.below(n_inst);
+      Inst &in     = insts[ii];
+      bool replace = rd.coin() || in.handles() >= 3;
+      new_handle(in, replace);
+      c.note(std::string(replace ? "replace the newest handle of " : "further handle for ") + in.name + "\n");
+      c.tag(replace ? "handle-replaced" : "handle-added");
+      if (n_records > 0)
+        c.tag("handle-created-after-records");
     }
   }
   // ---- every reader collects once more, then the totals must be complete
@@ -1256,16 +1562,19 @@ VH_TARGET(meter_cycles, 5,
   }
   for (unsigned r = 0; r < n_readers; ++r)
     for (size_t i = 0; i < insts.size(); ++i)
-    {
-      Inst &in = insts[i];
-      std::string base = "reader" + std::to_string(r) + (is_delta[r] ? "(delta) " : "(cumulative) ") + in.out_name;
-      if (in.is_double)
-        for (auto &kv : in.sd)
-          check_final<double>(c, base + "{" + kv.first + "}", is_delta[r], in, kv.second, seen_d[r][i][kv.first]);
-      else
-        for (auto &kv : in.sl)
-          check_final<int64_t>(c, base + "{" + kv.first + "}", is_delta[r], in, kv.second, seen_l[r][i][kv.first]);
-    }
+      for (size_t sx = 0; sx < insts[i].streams.size(); ++sx)
+      {
+        Inst &in         = insts[i];
+        const Stream &st = in.streams[sx];
+        std::string base = "reader" + std::to_string(r) + (is_delta[r] ? "(delta) " : "(cumulative) ") + st.out_name;
+        if (in.is_double)
+          for (auto &kv : in.sd)
+            check_final<double>(c, base + "{" + kv.first + "}", is_delta[r], st, kv.second, seen_d[r][i][sx][kv.first]);
+        else
+          for (auto &kv : in.sl)
+            check_final<int64_t>(c, base + "{" + kv.first + "}", is_delta[r], st, kv.second,
+                                 seen_l[r][i][sx][kv.first]);
+      }
   c.tag(n_collects == 0 ? "cycles-1" : n_collects < 3 ? "cycles-2..3" : "cycles-4+");
   c.tag(n_records < 4 ? "records-1..3" : n_records < 16 ? "records-4..15" : "records-16+");
   if (combined)
@@ -1276,18 +1585,94 @@ VH_TARGET(meter_cycles, 5,
   for (Inst &in : insts)
   {
     n_series = std::max(n_series, in.sd.size() + in.sl.size());
+    if (in.cfg_kind == 3 && combined && in.streams[0].bounds != in.streams[1].bounds &&
+        (!in.sd.empty() || !in.sl.empty()))
+      c.tag("two-views-different-bounds+intervals-combined");
     for (auto &kv : in.sd)
     {
+      if (kv.second.all.empty())
+        continue;
       if (std::all_of(kv.second.all.begin(), kv.second.all.end(), [](double v) { return v == 0; }))
         c.tag("series-all-zero-double");
       else if (*std::max_element(kv.second.all.begin(), kv.second.all.end()) < DBL_MIN)
         c.tag("series-max-below-DBL_MIN");
     }
     for (auto &kv : in.sl)
-      if (std::all_of(kv.second.all.begin(), kv.second.all.end(), [](int64_t v) { return v == 0; }))
+      if (!kv.second.all.empty() &&
+          std::all_of(kv.second.all.begin(), kv.second.all.end(), [](int64_t v) { return v == 0; }))
         c.tag("series-all-zero-long");
   }
   if (n_series >= 2)
     c.tag("several-attribute-sets");
   c.nontrivial = any_zero || any_eq || combined;
+}
+}  // namespace
+
+VH_TARGET(meter_cycles, 5,
+          "a history is non-trivial when some recorded value is 0 or exactly a boundary (of any stream "
+          "of its instrument), or some reader combines >= 2 collection intervals of one series (a "
+          "cumulative reader collecting twice with data in between, or any reader behind another "
+          "reader's Collect); distinct = distinct (instruments with their views/streams, readers, "
+          "operation sequence incl. handle and overload used) text")
+{
+  run_meter_cycles(c, false);
+}
+
+#if OPENTELEMETRY_ABI_VERSION_NO >= 2
+// the same target in the ABI v2 build: Record(value) / Record(value, attributes) are generated too
+VH_TARGET(meter_cycles_abi2, 5,
+          "as meter_cycles (ABI v2 build: about half of the Record calls use the overloads without a "
+          "context argument); non-trivial when some recorded value is 0 or exactly a boundary, or some "
+          "reader combines >= 2 collection intervals of one series; distinct = distinct (instruments, "
+          "readers, operation sequence) text")
+{
+  run_meter_cycles(c, true);
+}
+#endif
+
+// ================================================================================================
+// Fixed witness of the open known finding C07-u64-above-int64-max (independent of the generators):
+// Histogram<uint64_t>::Record(2^63) through a provider with one cumulative reader and default
+// boundaries.  The value is above every finite boundary, so - if it is counted at all - it belongs
+// to the last bucket, and no recorded value is negative.
+VH_TARGET(u64_wrap_witness, 1, "fixed witness case of known finding C07-u64-above-int64-max (not part of the search)")
+{
+  quiet_logs();
+  c.nontrivial = true;
+  auto provider = std::make_shared<sdkm::MeterProvider>();
+  std::shared_ptr<CycleReader> reader(new CycleReader(sdkm::AggregationTemporality::kCumulative));
+  provider->AddMetricReader(reader);
+  auto meter = provider->GetMeter("m");
+  auto h     = meter->CreateUInt64Histogram("h");
+  uint64_t v = uint64_t(1) << 63;
+  h->Record(v, opentelemetry::context::Context{});
+  c.note("Histogram<uint64_t>::Record(9223372036854775808)\n");
+  // (no VH_CHECK inside the callback: Collect is noexcept)
+  uint64_t count = 0, first_bucket = 0;
+  double first_bound = 0;
+  bool has_min = false;
+  int64_t min_v = 0;
+  reader->Collect([&](sdkm::ResourceMetrics &rm) {
+    for (auto &sm : rm.scope_metric_data_)
+      for (auto &md : sm.metric_data_)
+        for (auto &p : md.point_data_attr_)
+          if (nostd::holds_alternative<sdkm::HistogramPointData>(p.point_data))
+          {
+            auto &hp     = nostd::get<sdkm::HistogramPointData>(p.point_data);
+            count        = hp.count_;
+            first_bucket = hp.counts_.empty() ? 0 : hp.counts_.front();
+            first_bound  = hp.boundaries_.empty() ? 0 : hp.boundaries_.front();
+            if (nostd::holds_alternative<int64_t>(hp.min_))
+            {
+              has_min = true;
+              min_v   = nostd::get<int64_t>(hp.min_);
+            }
+          }
+    return true;
+  });
+  if (count == 0)
+    return;  // "not recorded" keeps the point an exact summary
+  VH_CHECK(c, first_bucket == 0, "u64 value above INT64_MAX: Record(2^63) was counted in the first bucket (-inf, " << first_bound << "]");
+  if (has_min)
+    VH_CHECK(c, min_v >= 0, "u64 value above INT64_MAX: min is " << min_v << " after recording only the non-negative value 2^63");
 }
